@@ -189,6 +189,49 @@ func (s *seqRun) fillTo(k uint64) bool {
 // counts; C10: cached inodes = logical disk), and once space has been freed the same file must be
 // writable and must not share a block with anybody (C04/C05: structure checker; read-back).
 func (s *seqRun) nospcScenarios(h int) {
+	// a multi-block WRITE / a READ of a hole that runs out of space exactly where it needs a new index block
+	for _, k := range []uint64{1, 2} {
+		for variant := 0; variant < 4 && !s.dead; variant++ {
+			tag := fmt.Sprintf("history %d nospc-crossing k=%d variant=%d", h, k, variant)
+			a := s.mk("create", s.root(), "a")
+			if a == nil {
+				return
+			}
+			first := uint64(8) // the indirect block is needed from block 8 on
+			if variant >= 2 {
+				first = 8 + 512 // the double-indirect root and a second-level block from here on
+			}
+			if variant%2 == 0 {
+				// WRITE: blocks first-1 (exists) and first (needs the index block(s) and a data block)
+				if first == 8 {
+					s.opWrite(a, 0, 8*4096, 2, s.mkData(8*4096))
+				} else {
+					s.opWrite(a, (first-1)*4096, 4096, 2, s.mkData(4096))
+				}
+			} else {
+				// READ of a hole inside the file
+				sz := (first + 4) * 4096
+				s.opSetattr(a, &sz, timeHow{}, timeHow{})
+			}
+			if !s.fillTo(k) {
+				s.deleteTree(s.root())
+				continue
+			}
+			if variant%2 == 0 {
+				s.opWrite(a, (first-1)*4096, 2*4096, 2, s.mkData(2*4096))
+			} else {
+				s.opRead(a, first*4096, 4096)
+			}
+			s.coherence()
+			s.fsckPoint(tag + " after the request that ran out of space")
+			s.opRemove("remove", s.root(), "filler")
+			s.opRemove("remove", s.root(), "filler2")
+			zero := uint64(0)
+			s.opSetattr(a, &zero, timeHow{}, timeHow{})
+			s.deleteTree(s.root())
+			s.fsckPoint(tag + " after delete-all")
+		}
+	}
 	for _, k := range []uint64{1, 0, 2} {
 		for variant := 0; variant < 2 && !s.dead; variant++ {
 			tag := fmt.Sprintf("history %d nospc k=%d variant=%d", h, k, variant)
